@@ -5,7 +5,7 @@ import U3.Model.Pool
 
 ```
 new <maxsize> <block> <proxy>
-req <rid> <retries ~|n> <preload> <release> <redirect> <methodRetryable> <isHead> [<fileBody><bodyPos><badTimeout>[<badPoolTimeout>]] <attempt>;<attempt>…
+req <rid> <retries ~|n> <preload> <release> <redirect> <methodRetryable> <isHead> [<fileBody><bodyPos><badTimeout>[<badPoolTimeout>[<badHeader>]]] <attempt>;<attempt>…
     attempt = connect,send,head,headLen,body,stray,after,seg[,sizes,trailers,hold[,pre,wait]]
     pre = ok | unrewind      wait = ok | invalid | intr
     head = none | garbage | <status>:<close>:<cl ~|n>:<location>:<retryAfter>[:<chunked>]
@@ -80,11 +80,15 @@ def how? (s : String) : Option How :=
   | ["stream", k] => k.toNat?.map .stream
   | _ => none
 
-def flags? (s : String) : Option (Bool × Bool × Bool × Bool) :=
+def flags? (s : String) : Option (Bool × Bool × Bool × Bool × Bool) :=
   match s.toList with
-  | [a, b, c] => do pure (← bool? (String.ofList [a]), ← bool? (String.ofList [b]), ← bool? (String.ofList [c]), false)
+  | [a, b, c] => do pure (← bool? (String.ofList [a]), ← bool? (String.ofList [b]), ← bool? (String.ofList [c]), false, false)
   | [a, b, c, d] => do
-    pure (← bool? (String.ofList [a]), ← bool? (String.ofList [b]), ← bool? (String.ofList [c]), ← bool? (String.ofList [d]))
+    pure (← bool? (String.ofList [a]), ← bool? (String.ofList [b]), ← bool? (String.ofList [c]), ← bool? (String.ofList [d]),
+      false)
+  | [a, b, c, d, e] => do
+    pure (← bool? (String.ofList [a]), ← bool? (String.ofList [b]), ← bool? (String.ofList [c]), ← bool? (String.ofList [d]),
+      ← bool? (String.ofList [e]))
   | _ => none
 
 def reqOp (rid ret pre rel red mret hd ext sc : String) : Option Op := do
@@ -96,8 +100,8 @@ def reqOp (rid ret pre rel red mret hd ext sc : String) : Option Op := do
   let red ← bool? red
   let mret ← bool? mret
   let hd ← bool? hd
-  let (fb, bp, bt, bpt) ← flags? ext
-  let rc : ReqCfg := ReqCfg.mk pre rel red mret hd fb bp bt bpt
+  let (fb, bp, bt, bpt, bh) ← flags? ext
+  let rc : ReqCfg := ReqCfg.mk pre rel red mret hd fb bp bt bpt bh
   pure (.request (← rid.toNat?) rc retries (← script? sc))
 
 def parseOp : List String → Option Op
